@@ -426,18 +426,14 @@ Proof.
       * cbn [length]. lia.
 Qed.
 
-(* When the first occurrence of the field literal is the metadata field, exactly its value is
-   replaced. *)
-Theorem remap_exact pre ws1 ws2 v post target :
-  find_sub gn_remap_field (pre ++ gn_remap_field ++ ws1 ++ [58] ++ ws2 ++ [c_dq] ++ v ++ [c_dq] ++ post)
-    = Some (length pre) ->
+Lemma remap_at_exact pre ws1 ws2 v post target :
   forallb (fun c => mem c gn_remap_ws) ws1 = true ->
   forallb (fun c => mem c gn_remap_ws) ws2 = true ->
   forallb (fun c => negb (c =? 92) && negb (c =? c_dq)) v = true ->
-  try_remap (pre ++ gn_remap_field ++ ws1 ++ [58] ++ ws2 ++ [c_dq] ++ v ++ [c_dq] ++ post) target
+  remap_at (length pre) (pre ++ gn_remap_field ++ ws1 ++ [58] ++ ws2 ++ [c_dq] ++ v ++ [c_dq] ++ post) target
   = Some (pre ++ gn_remap_field ++ ws1 ++ [58] ++ ws2 ++ [c_dq] ++ target ++ [c_dq] ++ post).
 Proof.
-  intros F W1 W2 V. unfold try_remap. rewrite F.
+  intros W1 W2 V. unfold remap_at.
   set (note := pre ++ gn_remap_field ++ ws1 ++ [58] ++ ws2 ++ [c_dq] ++ v ++ [c_dq] ++ post).
   assert (S1 : skipn (length pre + length gn_remap_field) note
                = ws1 ++ [58] ++ ws2 ++ [c_dq] ++ v ++ [c_dq] ++ post).
@@ -455,16 +451,42 @@ Proof.
   rewrite <- !app_assoc. cbn [app]. rewrite <- !app_assoc. reflexivity.
 Qed.
 
-(* ... and it is refuted when the attestation section itself contains the field literal followed
-   by a colon and a quote: a file named  DQ base_commit_sha DQ : DQ x  *)
-Theorem remap_marker_refuted :
-  exists note target expected,
-    try_remap note target <> Some expected /\ try_remap note target <> None
-    /\ note = w_remap_note /\ expected = w_remap_expected.
+(* the fact read from the source: the field is searched below the divider line only *)
+Lemma remap_after_divider : gn_remap_after_divider = true.
+Proof. reflexivity. Qed.
+
+(* Exactly the value of the metadata field is replaced, whatever the attestation section above the
+   first divider line contains. *)
+Theorem remap_exact att pre ws1 ws2 v post target :
+  let meta := pre ++ gn_remap_field ++ ws1 ++ [58] ++ ws2 ++ [c_dq] ++ v ++ [c_dq] ++ post in
+  starts_with div_head (att ++ div_mid ++ meta) = false ->
+  find_sub div_mid (att ++ div_mid ++ meta) = Some (length att) ->
+  find_sub gn_remap_field meta = Some (length pre) ->
+  forallb (fun c => mem c gn_remap_ws) ws1 = true ->
+  forallb (fun c => mem c gn_remap_ws) ws2 = true ->
+  forallb (fun c => negb (c =? 92) && negb (c =? c_dq)) v = true ->
+  try_remap (att ++ div_mid ++ meta) target
+  = Some (att ++ div_mid ++ pre ++ gn_remap_field ++ ws1 ++ [58] ++ ws2 ++ [c_dq] ++ target ++ [c_dq] ++ post).
 Proof.
-  exists w_remap_note, w_remap_target, w_remap_expected. vm_compute.
-  repeat split; discriminate.
+  intros meta H0 HD HF W1 W2 V. unfold try_remap, try_remap_with, metadata_start.
+  rewrite remap_after_divider, H0, HD.
+  assert (Sk : skipn (length att + length div_mid) (att ++ div_mid ++ meta) = meta).
+  { rewrite app_assoc, <- app_length. apply skipn_app_exact. }
+  rewrite Sk, HF.
+  assert (Hl : (length att + length div_mid + length pre)%nat = length ((att ++ div_mid) ++ pre)).
+  { rewrite !app_length. reflexivity. }
+  rewrite Hl.
+  pose proof (remap_at_exact ((att ++ div_mid) ++ pre) ws1 ws2 v post target W1 W2 V) as K.
+  unfold meta. rewrite <- !app_assoc in K. rewrite <- !app_assoc. exact K.
 Qed.
+
+(* the note that the code before the repair corrupted (a file named  DQ base_commit_sha DQ : DQ x)
+   is now rewritten correctly; searching the whole note is refuted on it *)
+Theorem remap_marker_fixed :
+  try_remap w_remap_note w_remap_target = Some w_remap_expected
+  /\ try_remap_with false w_remap_note w_remap_target <> Some w_remap_expected
+  /\ try_remap_with false w_remap_note w_remap_target <> None.
+Proof. vm_compute. repeat split; discriminate. Qed.
 
 (* ------------------------------------------------------------------ content replay: refuted *)
 Theorem replay_refuted :
